@@ -5,6 +5,7 @@
 #include <etl/_config/all.hpp>
 
 #include <etl/_concepts/integral.hpp>
+#include <etl/_limits/numeric_limits.hpp>
 #include <etl/_type_traits/is_constant_evaluated.hpp>
 #include <etl/_type_traits/is_same.hpp>
 
@@ -14,11 +15,18 @@ namespace detail {
 template <typename T>
 [[nodiscard]] constexpr auto rint_fallback(T arg) noexcept -> T
 {
-    if constexpr (sizeof(T) <= sizeof(long)) {
-        return static_cast<T>(static_cast<long>(arg));
-    } else {
-        return static_cast<T>(static_cast<long long>(arg));
+    // round to nearest, ties to even (the default rounding mode)
+    // every value of at least this magnitude is integral; adding and subtracting it rounds smaller values to an integer
+    constexpr auto big = T(1) / etl::numeric_limits<T>::epsilon();
+    if (arg != arg or arg == T(0)) {
+        return arg;
     }
+    auto const mag = arg < T(0) ? -arg : arg;
+    if (not(mag < big)) {
+        return arg;
+    }
+    auto const rounded = (mag + big) - big;
+    return arg < T(0) ? -rounded : rounded;
 }
 
 template <typename T>
